@@ -288,6 +288,26 @@ class RawPeer:
         self.sock.close()
 
 
+class RawServer:
+    """a scripted listener: accepts connections; the harness decides what it says on each"""
+
+    def __init__(self, net, host, port):
+        self.net = net
+        self.host = host
+        self.port = port
+        self.name = 'srv-%s:%d' % (host, port)
+        self.lsock = ListenSocket(self)
+        self.conns = []
+        net.listeners[(host, port)] = self
+
+    def accept_pending(self):
+        while self.lsock.pending:
+            self.conns.append(self.lsock.pending.pop(0))
+
+    def live(self):
+        return [c for c in self.conns if not c.closed and not c.remote_closed]
+
+
 class Net:
     def __init__(self, seed=0, t0=1_700_000_000):
         self.root = tempfile.mkdtemp(prefix='skv-net-')
@@ -355,6 +375,9 @@ class Net:
         nm.disconnected_peers[key] = d
         a.lp.start_outgoing_connection(d)
         b.accept_pending()
+
+    def add_server(self, host, port=2412):
+        return RawServer(self, host, port)
 
     def enabled(self):
         out = []
